@@ -482,6 +482,49 @@ def run(ctx):
               'comparison lengths %s): read_header_from_file hashes a constant in place of these bytes, so a changed '
               'identifier byte is covered by nothing' % (first, [n_ for c, n_ in cmps]), rl.file,
               cmps[0][0].line if cmps else rl.line, config=config)
+        # ---- f  the digest the comparison is made against is the one stored in *this* lead: every success exit of
+        #         read_lead() has copied digest_size bytes from the lead buffer into header_digest
+        from ..rules.common import FactRule as _FR
+
+        class Loaded(_FR):
+            name = 'R2.stored-digest-loaded'
+
+            def __init__(s_, prog_, fn_):
+                _FR.__init__(s_, prog_, fn_)
+                s_.exits = 0
+                s_.copies = 0
+
+            def on_call(s_, c2, call, ts):
+                if c2.fn is s_.fn and callee_name(call) in ('memcpy', 'memmove', '__builtin___memcpy_chk') and len(call.a) > 3:
+                    if pstr(call.a[1], s_.subst).endswith('header_digest') and 'header_digest' not in pstr(call.a[2], s_.subst):
+                        s_.copies += 1
+                        ts = ts | frozenset(['loaded'])
+                return ts
+
+            def on_assign(s_, c2, lhs, rhs, op, value, ts):
+                # a new buffer for the digest forgets what the old one held
+                if c2.fn is s_.fn and last_field(lhs) == 'header_digest' and op == '=':
+                    ts = ts - frozenset(['loaded'])
+                return ts
+
+            def on_return(s_, c2, node, mask, ts):
+                if c2.fn is s_.fn and (mask & (P1 | POS)):
+                    s_.exits += 1
+                    if 'loaded' not in ts:
+                        s_.violate(c2, 'stale', 'read_lead() can succeed without having copied the stored header checksum '
+                                   'of the lead it just read into header_digest: validate_header() then compares against '
+                                   'whatever an earlier lead left there, and the stored checksum of this file is never '
+                                   'looked at', inst='loaded', node=node)
+                return ts
+        ld = Loaded(prog, rl)
+        run_rule(prog, rl, ld)
+        ck.require(ld.exits >= 1 and ld.copies >= 1, 'read_lead: success exit (%d) or copy into header_digest (%d) not found'
+                   % (ld.exits, ld.copies))
+        ck.ob('C06-f', 'R2.stored-digest-loaded', rl.name, 'header_digest', not ld.violations,
+              'every success exit of read_lead() has copied the stored checksum from the lead buffer into header_digest '
+              '(%d exit state(s))' % ld.exits if not ld.violations else ld.violations[0].msg, rl.file,
+              ld.violations[0].node.line if ld.violations else rl.line,
+              path=ld.violations[0].path if ld.violations else None, config=config)
         # ---- gate object and comparison in validate_header
         vh = prog.need_func('validate_header')
         subst = unique_defs(vh)
